@@ -157,7 +157,8 @@ fn autogenerate_for_non_idents(sig: &mut syn::Signature) {
         .filter_map(|fn_arg| match fn_arg {
             syn::FnArg::Receiver(_) => None,
             syn::FnArg::Typed(pat_type) => match pat_type.pat.as_ref() {
-                syn::Pat::Ident(pat_ident) => Some(pat_ident.ident.to_string()),
+                // `r#arg0` and `arg0` are the same identifier
+                syn::Pat::Ident(pat_ident) => Some(pat_ident.ident.unraw().to_string()),
                 _ => None,
             },
         })
